@@ -9,6 +9,8 @@
 //             NSx  same txid, wrong witness script — invalid
 //   family 2: SG   real-key P2WPKH spend (low-S signature) — valid;  SGh same txid, high-S signature — consensus-valid,
 //             policy-invalid;  SGx same txid, corrupted signature — invalid
+//   family 3: TR   real-key P2TR key-path spend (BIP340 signature) — valid;  TRs same txid, same R but altered s — invalid;
+//             TRr  same txid, altered R — invalid
 // Plus VX-STATE on CuckooCache itself (all insert/contains/erase sequences on a heavily colliding small table).
 #include <vx/vx.h>
 #include <kits/chainkit.h>
@@ -17,6 +19,7 @@
 #include <chainparams.h>
 #include <cuckoocache.h>
 #include <key.h>
+#include <script/interpreter.h>
 #include <script/sign.h>
 #include <script/signingprovider.h>
 #include <util/time.h>
@@ -64,11 +67,14 @@ struct Twin {
             if (!r.pnb_ret || n.tip()->GetBlockHash() != b.GetHash()) throw std::runtime_error("base block rejected: " + r.reason);
             return b;
         };
-        CBlock b1 = mine(spk_wpkh), b2 = mine(spk_nop);
+        TaprootBuilder tb;
+        tb.Finalize(XOnlyPubKey(pub));
+        const CScript spk_tr = GetScriptForDestination(tb.GetOutput());
+        CBlock b1 = mine(spk_wpkh), b2 = mine(spk_nop), b3 = mine(spk_tr);
         for (int i = 0; i < 99; i++) mine(CScript());
-        base_height = n.height(); // 101: both coins are spendable in the next block
-        const COutPoint c1(b1.vtx[0]->GetHash(), 0), c2(b2.vtx[0]->GetHash(), 0);
-        const CAmount v1 = b1.vtx[0]->vout[0].nValue, v2 = b2.vtx[0]->vout[0].nValue, fee = 10000;
+        base_height = n.height(); // 102: all three coins are spendable in the next block
+        const COutPoint c1(b1.vtx[0]->GetHash(), 0), c2(b2.vtx[0]->GetHash(), 0), c3(b3.vtx[0]->GetHash(), 0);
+        const CAmount v1 = b1.vtx[0]->vout[0].nValue, v2 = b2.vtx[0]->vout[0].nValue, v3 = b3.vtx[0]->vout[0].nValue, fee = 10000;
         if (family == 1) {
             CMutableTransaction m;
             m.version = 2;
@@ -79,6 +85,32 @@ struct Twin {
             CScript wrong = CScript() << OP_TRUE;
             m.vin[0].scriptWitness.stack = {Bytes(wrong.begin(), wrong.end())};
             txs.push_back({"NSx", MakeTransactionRef(m), fee});
+        } else if (family == 3) {
+            CMutableTransaction m;
+            m.version = 2;
+            m.vin.emplace_back(c3);
+            m.vout.emplace_back(v3 - fee, ck::OpTrueSpk());
+            // BIP341 key-path signature made by hand: sighash (SIGHASH_DEFAULT, no annex), key tweaked with the empty script tree
+            PrecomputedTransactionData txdata;
+            txdata.Init(m, {CTxOut(v3, spk_tr)}, /*force=*/true);
+            ScriptExecutionData ed;
+            ed.m_annex_init = true;
+            ed.m_annex_present = false;
+            uint256 sighash;
+            if (!SignatureHashSchnorr(sighash, ed, m, 0, SIGHASH_DEFAULT, SigVersion::TAPROOT, txdata, MissingDataBehavior::FAIL)) throw std::runtime_error("taproot sighash failed");
+            Bytes sig(64);
+            const uint256 no_tree, aux{0x33};
+            if (!key.SignSchnorr(sighash, sig, &no_tree, aux)) throw std::runtime_error("schnorr signing failed");
+            m.vin[0].scriptWitness.stack = {sig};
+            txs.push_back({"TR", MakeTransactionRef(m), fee});
+            Bytes s2 = sig;
+            s2[40] ^= 0x01; // same R, different s
+            m.vin[0].scriptWitness.stack = {s2};
+            txs.push_back({"TRs", MakeTransactionRef(m), fee});
+            Bytes s3 = sig;
+            s3[5] ^= 0x01; // different R
+            m.vin[0].scriptWitness.stack = {s3};
+            txs.push_back({"TRr", MakeTransactionRef(m), fee});
         } else {
             CMutableTransaction m;
             m.version = 2;
@@ -365,22 +397,25 @@ int main(int argc, char** argv)
         return 0;
     }
     const int dd = getenv("VERIF_C13_DEPTH") ? atoi(getenv("VERIF_C13_DEPTH")) : (big ? 3 : 2);
-    const int depth[3] = {0, dd, dd};
-    const unsigned par = std::max(1u, std::min(vx::ncpu(), 8u) / 2);
+    const int depth[4] = {0, dd, dd, dd};
+    const unsigned par = std::max(1u, std::min(vx::ncpu(), 12u) / 6);
     uint64_t transitions = 0, diffs = 0, max_script = 0, max_sig = 0, ref_fill = 0;
     std::map<std::string, uint64_t> verdicts;
     vx::Distinct states;
     bool exhaustive = true;
-    for (int fam = 1; fam <= 2; fam++) {
-        if (vx::deadline_reached()) { exhaustive = false; break; }
+    // all six twin processes (3 families x {cached, reference}) run concurrently
+    pid_t pids[4][2];
+    for (int fam = 1; fam <= 3; fam++)
+        for (int ref = 0; ref < 2; ref++) {
+            pid_t p = fork();
+            if (p == 0) _exit(run_twin(ref, fam, depth[fam], dir + (ref ? "/B" : "/A") + S(fam), par));
+            pids[fam][ref] = p;
+        }
+    int status[4][2];
+    for (int fam = 1; fam <= 3; fam++) for (int ref = 0; ref < 2; ref++) { status[fam][ref] = 0; waitpid(pids[fam][ref], &status[fam][ref], 0); }
+    for (int fam = 1; fam <= 3; fam++) {
         std::string fa = dir + "/A" + S(fam), fb = dir + "/B" + S(fam);
-        pid_t pa = fork();
-        if (pa == 0) _exit(run_twin(false, fam, depth[fam], fa, par));
-        pid_t pb = fork();
-        if (pb == 0) _exit(run_twin(true, fam, depth[fam], fb, par));
-        int sa = 0, sb = 0;
-        waitpid(pa, &sa, 0);
-        waitpid(pb, &sb, 0);
+        const int sa = status[fam][0], sb = status[fam][1];
         if (!(WIFEXITED(sa) && WEXITSTATUS(sa) == 0) || !(WIFEXITED(sb) && WEXITSTATUS(sb) == 0)) { printf("HARNESS-ERROR twin process failed (family %d, status %d / %d)\n", fam, sa, sb); std::error_code ec; std::filesystem::remove_all(dir, ec); return 2; }
         auto load = [&](const std::string& file) {
             std::map<std::string, std::vector<std::string>> m;
@@ -403,7 +438,7 @@ int main(int argc, char** argv)
             E.evaluations += 1;
             const std::string last = h.substr(h.size() - 2);
             const char op = last[0];
-            std::string txname = last[1] == '_' ? "" : (fam == 1 ? std::vector<std::string>{"NS", "NSx"} : std::vector<std::string>{"SG", "SGh", "SGx"})[last[1] - '0'];
+            std::string txname = last[1] == '_' ? "" : (fam == 1 ? std::vector<std::string>{"NS", "NSx"} : fam == 2 ? std::vector<std::string>{"SG", "SGh", "SGx"} : std::vector<std::string>{"TR", "TRs", "TRr"})[last[1] - '0'];
             verdicts[std::string(1, op) + ":" + txname + ":" + a[0].substr(0, a[0].find('|'))]++;
             states.add(S(fam) + a[0].substr(a[0].find('|')));
             max_script = std::max<uint64_t>(max_script, strtoull(a[1].c_str(), nullptr, 10));
@@ -425,7 +460,8 @@ int main(int argc, char** argv)
     // vacuity gates
     auto need = [&](const std::string& k) { if (exhaustive && !verdicts.count(k) && vx::rep().violations == 0) { printf("HARNESS-ERROR outcome class never occurred: %s\n", k.c_str()); exit(2); } };
     for (const char* k : {"V:NS:valid", "P:NS:rejected", "A:NS:rejected", "B:NS:connected", "V:NSx:invalid", "B:NSx:notconnected", "P:SG:accepted", "A:SG:accepted", "P:SG:rejected", "V:SG:valid", "B:SG:connected",
-                          "P:SGh:rejected", "V:SGh:valid", "B:SGh:connected", "P:SGx:rejected", "V:SGx:invalid", "B:SGx:notconnected", "I::invalidated"}) need(k);
+                          "P:SGh:rejected", "V:SGh:valid", "B:SGh:connected", "P:SGx:rejected", "V:SGx:invalid", "B:SGx:notconnected", "I::invalidated",
+                          "P:TR:accepted", "V:TR:valid", "B:TR:connected", "P:TRs:rejected", "V:TRs:invalid", "B:TRs:notconnected", "P:TRr:rejected", "B:TRr:notconnected"}) need(k);
     if (dd >= 3) need("R::reconsidered");
     if (vx::rep().violations == 0 && (max_script < 1 || max_sig < 1 || cevict < 1 || cerased < 1)) { printf("HARNESS-ERROR caches never populated in twin A (script %lu, sig %lu) or cuckoo evictions never happened\n", (unsigned long)max_script, (unsigned long)max_sig); return 2; }
     E.states = states.size() + cstates;
@@ -443,11 +479,11 @@ int main(int argc, char** argv)
     E.set("cuckoo_evictions", cevict);
     std::string vs;
     for (auto& [k, c] : verdicts) vs += k + "=" + S(c) + " ";
-    E.sample("twin histories (every prefix of every event sequence to depth " + S(depth[1]) + ", 2 families): " + S(transitions) + ", differences " + S(diffs) + "; twin A cache fill up to " + S(max_script) + " script / " + S(max_sig) + " signature entries");
+    E.sample("twin histories (every prefix of every event sequence to depth " + S(depth[1]) + ", 3 families): " + S(transitions) + ", differences " + S(diffs) + "; twin A cache fill up to " + S(max_script) + " script / " + S(max_sig) + " signature entries");
     E.sample("outcome classes: " + vs);
     E.sample("cuckoocache: " + S(ctrans) + " operations over all sequences of depth " + S(big ? 6 : 5) + " on 6 symbols / 3 candidate slots each; evicting inserts " + S(cevict) + ", erase hits " + S(cerased));
     E.rule = "twin run by fork-per-transition: all event sequences to the depth over {TestBlockValidity(block with T), ProcessTransaction(T), test-accept(T), connect block with T} x T in family, empty block, invalidate tip, reconsider; "
-             "family 1 = {consensus-valid/policy-invalid NOP4 spend, its bad-witness twin}, family 2 = {real-key P2WPKH spend, its high-S twin (policy-invalid), its corrupted-signature twin}; outcome + tip + mempool after every event compared between the "
+             "family 1 = {consensus-valid/policy-invalid NOP4 spend, its bad-witness twin}, family 2 = {real-key P2WPKH spend, its high-S twin (policy-invalid), its corrupted-signature twin}, family 3 = {real-key P2TR key-path spend, same-R-different-s twin, different-R twin}; outcome + tip + mempool after every event compared between the "
              "default-cache node and a node whose caches are emptied before every event. CuckooCache: every operation sequence to the depth vs a set model (no false positives, contains is pure, an insert loses at most one live element). "
              "states = distinct (tip, mempool) per family + cuckoo content states; distinct = outcome classes seen";
     E.assume("the reference twin is made cache-free by zeroing its 2-slot caches through private access before every event; within one event the reference may still hit entries it inserted itself in that event");
